@@ -118,3 +118,48 @@ Definition tx_writer (oneofs : list (string * string)) (quads : bool) (maxn maxp
       end
     end
   end end end end end.
+
+(* ------------------------------------------------------------------ the writer drivers *)
+(* GenericStatementSink() with the bindings and the statements put in (bind / add), the stream built as above, then the
+   translated driver for the physical type: triples_stream_frames / quads_stream_frames / graphs_stream_frames(stream, sink).
+   The frames yielded (canonical) and the class of the exception that ended the generator *)
+Definition tx_sink (ns : list (str * str)) (stmts : list gobj) : outcome (GenericStatementSink SN) :=
+  match GenericStatementSink___init__ SN (@O__DefaultGraph SN) with
+  | Exn e => Exn e
+  | Val k0 =>
+    let '(r1, k1) := fold_left (fun acc (pn : str * str) => let '(r0, k) := acc in
+                                match r0 with Exn e => (Exn e, k) | Val _ => GenericStatementSink_bind SN (fst pn) (@O_IRI SN (snd pn)) k end) ns (Val tt, k0) in
+    match r1 with
+    | Exn e => Exn e
+    | Val _ =>
+      let '(r2, k2) := fold_left (fun acc (st : gobj) => let '(r0, k) := acc in
+                                  match r0 with Exn e => (Exn e, k) | Val _ => GenericStatementSink_add SN st k end) stmts (Val tt, k1) in
+      match r2 with Exn e => Exn e | Val _ => Val k2 end
+    end
+  end.
+
+Definition tx_driver (oneofs : list (string * string)) (phys : Z) (maxn maxp maxd : Z) (gen star : bool) (version : Z) (delimited nd : bool) (name : str)
+                     (frame_size logical : Z) (ns : list (str * str)) (stmts : list gobj) : list (pbval str) * option exn :=
+  match LookupPreset___init__ maxn maxp maxd with
+  | Exn e => ([], Some e)
+  | Val preset =>
+  match StreamParameters___init__ SN gen star version delimited nd name with
+  | Exn e => ([], Some e)
+  | Val params =>
+  match SerializerOptions___init__ SN None frame_size logical params preset with
+  | Exn e => ([], Some e)
+  | Val opts =>
+  match TermEncoder___init__ SN (Some preset) with
+  | Exn e => ([], Some e)
+  | Val enc =>
+  match (if phys =? 1 then TripleStream___init__ SN enc (Some opts) else if phys =? 2 then QuadStream___init__ SN enc (Some opts)
+         else GraphStream___init__ SN enc (Some opts)) with
+  | Exn e => ([], Some e)
+  | Val s0 =>
+  match tx_sink ns stmts with
+  | Exn e => ([], Some e)
+  | Val k =>
+    let '(r, _, _, ys) := (if phys =? 1 then triples_stream_frames SN s0 k else if phys =? 2 then quads_stream_frames SN s0 k
+                           else graphs_stream_frames SN s0 k) in
+    (map (pb_canon oneofs) ys, match r with Exn e => Some e | Val _ => None end)
+  end end end end end end.
